@@ -1,7 +1,7 @@
 //! C09 / C11 — PatternEncoder::new + Encode::encode on the real crate.
 //! All strings are lists of code points.  Options are () or (v).
 //! case:   ( mode pattern rec mdc thread treqs )   |   ( 3 chars ) -> cls of those chars only
-//!   mode   1 = construct and encode, 2 = construct only (absurd widths),
+//!   mode   1 = construct and encode, 2 = construct only (absurd widths), 5 = switch the process's TZ, then as 1,
 //!          4 = as 1 but in a forked child, after the parent has encoded the pid formatters
 //!   rec    ( level msg target module? file? line? )
 //!   mdc    ( (key value)* )
@@ -300,7 +300,19 @@ fn run(case: &Val) -> Val {
         return forked(case);
     }
     let thread = opt_cps(&case.l()[4]);
-    let case = case.clone();
+    let mut case = case.clone();
+    if case.l()[0].n() == 5 {
+        // mode 5: the process's time zone changes (TZ is re-read by chrono's Local on every
+        // call), then the case runs as mode 1.  The date oracle is rendered after the switch,
+        // and the zone stays switched for the following cases of this process.
+        static NEXT: std::sync::atomic::AtomicUsize = std::sync::atomic::AtomicUsize::new(0);
+        const ZONES: [&str; 5] = ["JST-9", "EST5", "Asia/Kolkata", "UTC0", "America/St_Johns"];
+        let k = NEXT.fetch_add(1, std::sync::atomic::Ordering::SeqCst);
+        std::env::set_var("TZ", ZONES[k % ZONES.len()]);
+        let mut items = case.l().to_vec();
+        items[0] = Val::N(1);
+        case = Val::L(items);
+    }
     let mut b = std::thread::Builder::new();
     if let Some(n) = thread {
         b = b.name(n);
